@@ -165,6 +165,8 @@ func (L *Library) loadFile(path string) error {
 				return errf("duplicate contract for %s", key)
 			}
 			cur = &FuncContract{Key: key, Pkg: pkg, Extern: word == "extern", Invariants: map[int][]*Clause{}, Nilable: map[string]bool{}, File: path, Line: ln, Aliases: aliases, Names: names, ResNames: resnames}
+			// functions of /repo write only memory they allocate unless they say otherwise (checked: "frame" obligations)
+			cur.HasAssigns = word == "func"
 			L.Funcs[key] = cur
 		case "requires", "ensures":
 			if cur == nil {
